@@ -363,7 +363,7 @@ class Stage:
     def register_variable(self, v, grid = '', order=0, scale=1, include_last=False, domain='real', meta=None):
         if isinstance(v, list):
             for e in v:
-                self.register_variable(e, scale=scale, domain=domain)
+                self.register_variable(e, grid=grid, order=order, scale=scale, include_last=include_last, domain=domain, meta=meta)
             return
         self._meta[v] = merge_meta(meta, get_meta())
         self._scale[v] = self._parse_scale(v, scale)
@@ -437,7 +437,7 @@ class Stage:
     def register_parameter(self, p, grid='', order=0, scale=1, include_last=False, meta=None):
         if isinstance(p,list):
             for e in p:
-                self.register_parameter(e, scale=scale)
+                self.register_parameter(e, grid=grid, order=order, scale=scale, include_last=include_last, meta=meta)
             return
         self._meta[p] = merge_meta(meta, get_meta())
         self._scale[p] = self._parse_scale(p, scale)
